@@ -726,6 +726,9 @@ func disjoint(xs ...[]byte) bool { return true }
 // public key with bytes key (ghost predicate: uninterpreted in proofs, decided
 // only by what the verification primitives reported; not executable).
 func sigvalid(key, data, sig []byte) bool { return false }
+
+// ishash: h is the SHA-256 digest of data (ghost predicate, see sigvalid).
+func ishash(h [32]byte, data []byte) bool { return false }
 `
 
 func (sf *SpecFile) genLines() []string {
@@ -737,7 +740,7 @@ func (sf *SpecFile) genLines() []string {
 
 func trimSpaceStr(s string) string { return strings.Join(strings.Fields(s), " ") }
 
-var preludeRe = regexp.MustCompile(`(^|[^.\w])(assert|assume|implies|seqeq|cat|sub|val|u16|u32|forall|exists|suffix|within|fresh|disjoint|same|isnil|sigvalid)\(`)
+var preludeRe = regexp.MustCompile(`(^|[^.\w])(assert|assume|implies|seqeq|cat|sub|val|u16|u32|forall|exists|suffix|within|fresh|disjoint|same|isnil|sigvalid|ishash)\(`)
 
 // renamePrelude gives the ghost vocabulary collision-free names in the
 // generated Go (contracts are written with the short names).
